@@ -26,7 +26,8 @@ def run(tier):
     free += [("session", dict(size=3, moo=1, al=0, manykeys=36, perf={"strategy": "block", "blockms": 500, "winout": 2, "slowsink": 30000}), 3 if tier == "quick" else 12, 0),
              ("session", dict(size=3, moo=0, al=0, manykeys=12, perf={"strategy": "expand", "winout": 2, "slowsink": 2000}), 2 if tier == "quick" else 12, 0)]
     idle = [("session", dict(size=10, moo=2), 6 if tier == "quick" else 50)]      # IDLETIMEOUT: ties and stragglers keep a source alive
-    return win.run_family("C10", tier, plan, free, ASSUME, idle_plan=idle)
+    post = lambda res, rng, vh, scen: win.proc_session_stage(res, rng, vh, scen, quick=(tier == "quick"))
+    return win.run_family("C10", tier, plan, free, ASSUME, idle_plan=idle, post=post)
 
 
 if __name__ == "__main__":
